@@ -115,7 +115,12 @@ func init() {
 	models["(*bytes.Buffer).WriteRune"] = models["(*strings.Builder).WriteRune"]
 	models["(*bytes.Buffer).String"] = models["(*strings.Builder).String"]
 	models["(*bytes.Buffer).Len"] = models["(*strings.Builder).Len"]
-	models["(*bytes.Buffer).Reset"] = models["(*strings.Builder).Reset"]
+	// bytes.Buffer.Reset keeps the storage (a slice obtained from Bytes earlier is overwritten by later writes)
+	models["(*bytes.Buffer).Reset"] = func(p *Path, fn *ssa.Function, a []Value) Value {
+		b := p.buf(a[0])
+		b.b = b.b[:0]
+		return nil
+	}
 	models["(*bytes.Buffer).Grow"] = models["(*strings.Builder).Grow"]
 	models["(*bytes.Buffer).Write"] = func(p *Path, fn *ssa.Function, a []Value) Value {
 		b := p.buf(a[0])
@@ -171,8 +176,12 @@ func init() {
 		return Tuple{int64(n), Iface{}}
 	}
 	models["(*bytes.Buffer).Bytes"] = func(p *Path, fn *ssa.Function, a []Value) Value {
+		// the result aliases the buffer's storage, as in the real package
 		b := p.buf(a[0])
-		return Slice{A: append(make([]Value, 0, len(b.b)), b.b...)}
+		if b.b == nil {
+			return Slice{A: []Value{}}
+		}
+		return Slice{A: b.b}
 	}
 
 	models["strconv.Itoa"] = func(p *Path, fn *ssa.Function, a []Value) Value {
